@@ -5,8 +5,11 @@ package graph
 
 import (
 	"container/heap"
-	"math"
 )
+
+// distInfinity is the distance of vertices that are not (yet) known to be
+// reachable from the source.
+const distInfinity = int(^uint(0) >> 1)
 
 // Dijkstra implements Dijkstra's algorithm for finding single source
 // shortest paths in an edge-weighted graph with non-negative edge weights.
@@ -24,7 +27,7 @@ func (g *Graph) Dijkstra(src Vertex) (distTo map[interface{}]int, edgeTo map[int
 	for k, _ := range g.hash {
 		item := &distQueueItem{
 			v:        k,
-			distance: math.MaxInt32,
+			distance: distInfinity,
 			previous: nil,
 			index:    len(queue),
 		}
@@ -47,6 +50,12 @@ func (g *Graph) Dijkstra(src Vertex) (distTo map[interface{}]int, edgeTo map[int
 		u := heap.Pop(&queue).(*distQueueItem)
 		visited[u.v] = struct{}{}
 
+		// If the closest remaining vertex is unreachable, so is everything
+		// else left in the queue and there is nothing to relax from here.
+		if u.distance == distInfinity {
+			continue
+		}
+
 		// for each unvisited neighbour V of U
 		for vhash, weight := range g.adjacencyOut[u.v] {
 			if _, ok := visited[vhash]; ok {
@@ -56,7 +65,7 @@ func (g *Graph) Dijkstra(src Vertex) (distTo map[interface{}]int, edgeTo map[int
 			v := queueItem[vhash]
 
 			// tempDistance <- distance[U] + edge_weight(U, V)
-			tempDistance := u.distance + int32(weight)
+			tempDistance := u.distance + weight
 
 			// if tempDistance < distance[V]
 			if tempDistance < v.distance {
@@ -73,7 +82,7 @@ func (g *Graph) Dijkstra(src Vertex) (distTo map[interface{}]int, edgeTo map[int
 	distTo = make(map[interface{}]int, len(queueItem))
 	edgeTo = make(map[interface{}]Vertex, len(queueItem))
 	for _, item := range queueItem {
-		distTo[item.v] = int(item.distance)
+		distTo[item.v] = item.distance
 		edgeTo[item.v] = g.hash[item.previous]
 	}
 
@@ -87,7 +96,7 @@ type distQueue []*distQueueItem
 
 type distQueueItem struct {
 	v        interface{} // Vertex hashcode
-	distance int32
+	distance int
 	previous interface{} // Previous vertex hashcode
 	index    int
 }
